@@ -455,3 +455,7 @@ func stripAmbient(jail string, modelFS string) string {
 	sort.Strings(out)
 	return strings.Join(out, ",")
 }
+
+// color.Output accessors (the dry-run report of Mkdir goes to this package-level writer)
+func colorOutput() io.Writer     { return color.Output }
+func setColorOutput(w io.Writer) { color.Output = w }
